@@ -297,6 +297,17 @@ pub fn run(case: &Value, ctx: &Ctx) -> Outcome {
             let r = cli::sfs(ctx, &args, Some(&bytes));
             verdict(&mut out, format!("shapeop/{}/{}", shape, op.join(" ")), &r, expect, sc.clone());
         }
+        "statprec" => {
+            let stats = sc["stats"].as_str().unwrap();
+            let precs = sc["precs"].as_str().unwrap();
+            let prec_arg = format!("--precision={precs}");
+            let mut args: Vec<&str> = vec!["stat", "-s", stats, &prec_arg];
+            if sc["header"].as_bool().unwrap_or(false) {
+                args.push("-H");
+            }
+            let r = cli::sfs(ctx, &args, Some(&text_of(&[7])));
+            verdict(&mut out, format!("statprec/{stats}/{precs}"), &r, expect, sc.clone());
+        }
         "manypops" => {
             let n = sc["n"].as_u64().unwrap() as usize;
             let cols: Vec<String> = (0..n).map(|i| format!("s{i}")).collect();
